@@ -984,7 +984,24 @@ def _s_casefold(I, s, lineno):
     return fold_fn()(to_z3(s))
 
 
+def _s_lower(I, s, lineno):
+    # str.lower is NOT str.casefold ('\xdf'.lower() != '\xdf'.casefold()): its own uninterpreted function, so that code
+    # which uses one where the index is keyed by the other does not verify
+    if isinstance(s, str):
+        return s.lower()
+    I.used_summaries.add('str.lower: uninterpreted (distinct from casefold)')
+    return lower_fn()(to_z3(s))
+
+
 _FOLD = None
+_LOWER = None
+
+
+def lower_fn():
+    global _LOWER
+    if _LOWER is None:
+        _LOWER = z3.Function('str_lower', z3.StringSort(), z3.StringSort())
+    return _LOWER
 
 
 def fold_fn():
@@ -1054,7 +1071,7 @@ def _s_format(I, s, lineno, *args, **kwargs):
 
 SYM_STR_METHODS = {
     'startswith': _s_startswith, 'endswith': _s_endswith, 'find': _s_find, 'index': _s_index,
-    'casefold': _s_casefold, 'lower': _s_casefold, 'replace': _s_replace, 'join': _s_join, 'format': _s_format,
+    'casefold': _s_casefold, 'lower': _s_lower, 'replace': _s_replace, 'join': _s_join, 'format': _s_format,
     'rfind': _s_rfind, 'rstrip': _s_rstrip,
 }
 STR_METHODS = {n: _concrete_str_method(n) for n in
